@@ -101,7 +101,8 @@ type Respelling struct {
 	Text string
 }
 
-var Fillers = []string{" ", "\t", "\n", "\r\n", "  ", "/**/", "/* c */", "/* * / */", "// c\n", "//\n"}
+var Fillers = []string{" ", "\t", "\n", "\r\n", "  ", "/**/", "/* c */", "/* * / */", "// c\n", "//\n",
+	"/***/", "/****/", "/* x **/", "/** x\n * y\n **/", "/*/*/", "/* // */", "// */\n", "//* x\n", "/* ' \" ` << */", "\n\n\t "}
 
 // charSpellings returns alternative spellings of a character literal denoting the same code point.
 func charSpellings(lit string) []string {
